@@ -330,6 +330,11 @@ class J1939_21:
             if next_package_number + num_packages > num_packages_all:
                 logger.debug("CTS: Allowed more packets %d than needed to complete transmission %d", num_packages, num_packages_all - next_package_number)
                 num_packages = num_packages_all - next_package_number
+            # never clear more packets than are left to be sent
+            num_packages = min(num_packages, num_packages_all - self._snd_buffer[buffer_hash]['next_packet_to_send'])
+            if num_packages <= 0:
+                # nothing left to send for this CTS (duplicate or out of range): keep waiting
+                return
 
             self._snd_buffer[buffer_hash]['next_wait_on_cts'] = self._snd_buffer[buffer_hash]['next_packet_to_send'] + num_packages - 1
 
